@@ -2,6 +2,7 @@ import Pearl.Model.Script
 import Pearl.Model.Worker
 import Pearl.Model.Record
 import Pearl.Model.BPTreeBytes
+import Pearl.Model.BloomProto
 /-
 Driver state around the L2 store: configuration, a lower bound of wall-clock time (sum of `wait`s),
 blob birth times (for the rotation debounce), open/closed.  Nondeterministic background events
@@ -22,6 +23,7 @@ structure DState where
   deferred : Bool := false
   dumpRunning : Bool := false
   fsyncRunning : Bool := false
+  bloom : BloomProto.BState := {}
 deriving Inhabited
 
 /-- run one message through the proved worker model (`processMsgFixed` = the loop as it is in /repo) -/
@@ -106,6 +108,9 @@ def step (d : DState) (line : String) : DState × String :=
   let toks := toks0.filter (fun t => !t.startsWith "@" && t ≠ "")
   let line' := " ".intercalate toks
   match toks with
+  | "bloom" :: _ | "bloom2" :: _ =>
+    let (b, o) := BloomProto.step d.bloom toks0
+    ({ d with bloom := b }, o)
   | "cfg" :: rest =>
     let (s, o) := Script.step d.store line'
     (noteBorn { store := s, maxData := cfgNat rest "maxdata" 1000000, klen := cfgNat rest "key" 4,
